@@ -119,6 +119,7 @@ def drive(ctx, cfg, observers=(), dom=None, algo=None, T=None, last_point=True, 
 class ExpansionRecorder(Observer):
     """wraps make_children of every partition held by the algorithm (per instance, no source
     edit) and logs each call: (round, cell, was_leaf, newlayer, partition depth before)"""
+    on_call = None
 
     def start(self, ctx, cfg, algo, dom):
         self.ctx, self.algo = ctx, algo
@@ -137,8 +138,11 @@ class ExpansionRecorder(Observer):
             rec = self
 
             def mk(parent, newlayer=False, _orig=orig, _part=part):
-                rec.calls.append({"round": rec.round, "phase": rec.phase, "cell": parent, "was_leaf": parent.get_children() is None,
-                                  "newlayer": newlayer, "depth_before": _part.get_depth(), "part": _part})
+                call = {"round": rec.round, "phase": rec.phase, "cell": parent, "was_leaf": parent.get_children() is None,
+                        "newlayer": newlayer, "depth_before": _part.get_depth(), "part": _part}
+                rec.calls.append(call)
+                if rec.on_call is not None:
+                    rec.on_call(call)
                 return _orig(parent, newlayer) if True else None
 
             part.make_children = mk
